@@ -388,3 +388,305 @@ func noSelfFormatting(r *core.Run, rule string) {
 	}
 	r.Check(n > 0, rule, "no String/Error method formats its own receiver through fmt.Stringer", token.NoPos, fmt.Sprintf("%d String/Error methods inspected", n), "no String methods found")
 }
+
+// lenSitesRule re-states C10's panic-site obligations (E-LEN with the reviewed-invariant table) for the functions sel
+// picks, under the rule of another property whose statement needs them.
+func lenSitesRule(r *core.Run, rule string, sel func(*ssa.Function) bool, consequence string) int {
+	p := r.Prog
+	le := newLenEngine(p)
+	reviewed := c10Reviewed(p)
+	n := 0
+	for _, fn := range p.ModuleFuncs() {
+		if fn.Blocks == nil || !sel(fn) {
+			continue
+		}
+		for _, s := range le.Sites(fn) {
+			if s.Kind != "index" && s.Kind != "slice" {
+				continue
+			}
+			n++
+			key := core.FuncName(fn) + ": " + s.Expr
+			if s.OK {
+				r.OK(rule, key, s.Instr.Pos(), s.Reason)
+				continue
+			}
+			matched := false
+			for _, rv := range reviewed {
+				if rv.matches(fn, s) {
+					matched = true
+					if ok, why := rv.check(r, s); ok {
+						r.OK(rule, key, s.Instr.Pos(), "reviewed invariant: "+rv.reason)
+					} else {
+						r.Bad(rule, key, s.Instr.Pos(), "the guard this site relies on no longer holds: "+why+" ("+rv.reason+")")
+					}
+					break
+				}
+			}
+			if !matched {
+				r.Bad(rule, key, s.Instr.Pos(), s.Reason+": "+consequence)
+			}
+		}
+	}
+	return n
+}
+
+// c08NoCrash: R08.11 ("never a crash"). Every index and slice expression in the package parsers (ReadFrom on a
+// BytesChannel, package tds) is in range whatever the server sends: they run in the reader goroutine, where a panic
+// takes the process down and the caller of Login cannot recover it.
+func c08NoCrash(r *core.Run) {
+	p := r.Prog
+	bc := p.Named("tds", "BytesChannel")
+	n := lenSitesRule(r, "R08.11", func(fn *ssa.Function) bool {
+		if fn.Pkg != nil && fn.Pkg.Pkg.Path() == core.Module+"/asetypes" && strings.EqualFold(fn.Name(), "GoValue") {
+			return true // the values of the key parameters are decoded here
+		}
+		if fn.Pkg == nil || fn.Pkg.Pkg.Path() != core.Module+"/tds" || !strings.HasPrefix(fn.Name(), "ReadFrom") {
+			return false
+		}
+		for _, prm := range fn.Params {
+			if types.Identical(prm.Type(), bc) {
+				return true
+			}
+		}
+		return false
+	}, "a reply with an altered length or count field makes this expression panic in the reader goroutine during Login")
+	if n == 0 {
+		r.Unknown("R08.11", "package parsers: index/slice sites", token.NoPos, "no index or slice expression found in the package parsers")
+	}
+}
+
+// c01PacketImage: R01.17. The wire image of a packet is exactly Header.Length bytes: Packet.Bytes returns a buffer
+// made with that length (header and body are copied into it). An image sized by the body it happens to hold is
+// shorter than what its header announces for a header-only packet built with NewPacket (the teardown of a logical
+// channel), and the receiver takes the next packets' bytes as its body.
+func c01PacketImage(r *core.Run) {
+	p := r.Prog
+	fn := p.Func("tds", "Packet", "Bytes")
+	fLen := p.Field("tds", "PacketHeader", "Length")
+	why := ""
+	n := 0
+	for _, ret := range core.Returns(fn) {
+		rv := core.RetVals(ret)
+		if core.IsNil(rv[0]) {
+			continue
+		}
+		n++
+		ms, ok := core.Strip(rv[0]).(*ssa.MakeSlice)
+		if !ok {
+			why = "Packet.Bytes returns " + core.Expr(rv[0]) + ", not a buffer made with Header.Length bytes: for a packet whose body is shorter than its header announces (the teardown packet of a logical channel) fewer bytes reach the transport than the header says, and the peer reads the following packets as this packet's body"
+			continue
+		}
+		if f, _ := core.FieldLoad(core.Strip(ms.Len)); f != fLen {
+			why = "the wire image is made with length " + core.Expr(ms.Len) + ", not Header.Length"
+		}
+	}
+	if n == 0 {
+		why = "Packet.Bytes never returns an image"
+	}
+	r.Check(why == "", "R01.17", "Packet.Bytes: the image has Header.Length bytes", fn.Pos(), "make([]byte, Header.Length)", why)
+}
+
+// c11CallbackErrorWrapped: R11.10. Whatever the callback of NextPackageUntil answers together with an error — also
+// (true, err) — that error reaches the caller only inside the error that carries the collected messages (the
+// EEDError, or the fmt.Errorf wrap when no message was received); the identity shortcut err == io.EOF returns io.EOF
+// itself. No return hands back the callback's error value as it is.
+func c11CallbackErrorWrapped(r *core.Run) {
+	p := r.Prog
+	fn := p.Func("tds", "Channel", "NextPackageUntil")
+	var cbErr []ssa.Value
+	for _, c := range core.Calls(fn) {
+		cc := c.Common()
+		if cc.IsInvoke() || cc.StaticCallee() != nil {
+			continue
+		}
+		if cc.Value != ssa.Value(fn.Params[3]) {
+			continue
+		}
+		if v := c.Value(); v != nil {
+			for _, ref := range *v.Referrers() {
+				if ex, ok := ref.(*ssa.Extract); ok && ex.Index == 1 {
+					cbErr = append(cbErr, ex)
+				}
+			}
+		}
+	}
+	if len(cbErr) == 0 {
+		r.Bad("R11.10", "NextPackageUntil: callback error", fn.Pos(), "no call of the processing function whose error result is examined")
+		return
+	}
+	isCb := func(v ssa.Value) bool {
+		seen := map[ssa.Value]bool{}
+		var walk func(v ssa.Value) bool
+		walk = func(v ssa.Value) bool {
+			v = core.Strip(v)
+			if seen[v] {
+				return false
+			}
+			seen[v] = true
+			for _, e := range cbErr {
+				if v == e {
+					return true
+				}
+			}
+			if ph, ok := v.(*ssa.Phi); ok {
+				for _, e := range ph.Edges {
+					if walk(e) {
+						return true
+					}
+				}
+			}
+			return false
+		}
+		return walk(v)
+	}
+	why := ""
+	for _, ret := range core.Returns(fn) {
+		rv := core.RetVals(ret)
+		ev := rv[len(rv)-1]
+		if !isCb(ev) {
+			continue
+		}
+		// fine when the error is known to be nil here
+		knownNil := false
+		for _, g := range core.GuardsAt(ret) {
+			if x, nn, ok := core.ErrNilTest(g.Cond); ok && nn != g.Pol && isCb(x) {
+				knownNil = true
+			}
+		}
+		if !knownNil {
+			why = "NextPackageUntil returns the callback's error as it is (" + p.Pos(ret.Pos()) + "): when the callback answers (true, err) the caller gets neither the EEDError with the messages received so far nor a drained response"
+		}
+	}
+	r.Check(why == "", "R11.10", "NextPackageUntil: the callback's error is returned only inside the aggregated error", fn.Pos(), "no return hands back processPkg's error value itself", why)
+}
+
+// c11EnvChangeAnyCount: R11.11. An ENVCHANGE token carries 0..n members. Every width sequence EnvChangePackage.WriteTo
+// can produce — among them the one with no member at all — is accepted by ReadFrom (E-SHAPE, R06.1 for this one
+// type): a reader that insists on a first member takes it out of the following package, fails, and the messages and
+// the packet-size change after it never reach the hooks.
+func c11EnvChangeAnyCount(r *core.Run) {
+	p := r.Prog
+	ef := newErrFlow(p)
+	n := p.Named("tds", "EnvChangePackage")
+	rf, wf := methodFn(p, n, "ReadFrom"), methodFn(p, n, "WriteTo")
+	if rf == nil || wf == nil {
+		r.Unknown("R11.11", "EnvChangePackage", token.NoPos, "ReadFrom/WriteTo not found")
+		return
+	}
+	wn, wprob := codecNFA(p, ef, wf, nil, false)
+	rn, rprob := codecNFA(p, ef, rf, nil, false)
+	if wprob != "" || rprob != "" {
+		r.Unknown("R11.11", "EnvChangePackage", wf.Pos(), wprob+rprob)
+		return
+	}
+	if cex := included(wn.dropFirstByte(), rn); cex != nil {
+		r.Bad("R11.11", "EnvChangePackage: any number of members", rf.Pos(), "an ENVCHANGE the writer can produce (widths: "+strings.Join(cex.Word, " ")+") is not accepted by the reader: "+cex.Why+" — with no member the reader takes the next package's bytes for one, fails, and what follows (messages, the packet-size change) is lost")
+		return
+	}
+	r.OK("R11.11", "EnvChangePackage: any number of members", rf.Pos(), "every width sequence of WriteTo (0..n members) is accepted by ReadFrom")
+}
+
+// c09CurrentPassword: R09.8. The entry for the current server in the remote-password list ("respective password") is
+// built by Login from config.DSN.Password as it is at that moment: the store LoginConfigRemoteServer.Password :=
+// config.DSN.Password dominates the call of pack() (and with it everything sent). An entry kept from an earlier
+// Login or from the construction of the config carries the password of that time, and the REMPWD entry for the
+// current server no longer decrypts to the password LOGPWD carries.
+func c09CurrentPassword(r *core.Run) {
+	p := r.Prog
+	login := p.Func("tds", "Channel", "Login")
+	pack := p.Func("tds", "LoginConfig", "pack")
+	fRemPw := p.Field("tds", "LoginConfigRemoteServer", "Password")
+	var dsnPw *types.Var
+	if info, ok := p.Named("tds", "Info").Underlying().(*types.Struct); ok {
+		for i := 0; i < info.NumFields(); i++ {
+			if info.Field(i).Name() == "Password" {
+				dsnPw = info.Field(i)
+			}
+		}
+	}
+	if dsnPw == nil {
+		// promoted from an embedded struct
+		if o, _, _ := types.LookupFieldOrMethod(p.Named("tds", "Info"), true, p.Pkg("tds").Types, "Password"); o != nil {
+			dsnPw, _ = o.(*types.Var)
+		}
+	}
+	var builds []ssa.Instruction
+	for _, b := range login.Blocks {
+		for _, in := range b.Instrs {
+			st, ok := in.(*ssa.Store)
+			if !ok {
+				continue
+			}
+			fa, ok := st.Addr.(*ssa.FieldAddr)
+			if !ok || core.FieldOfAddr(fa) != fRemPw {
+				continue
+			}
+			if f, _ := core.FieldLoad(core.Strip(st.Val)); f != nil && f == dsnPw {
+				builds = append(builds, st)
+			}
+		}
+	}
+	calls := callsTo(login, pack)
+	why := ""
+	switch {
+	case dsnPw == nil:
+		why = "Info.Password not found"
+	case len(calls) == 0:
+		why = "Login does not call pack()"
+	case len(builds) == 0:
+		why = "Login no longer builds the current server's entry from config.DSN.Password: the REMPWD entry carries whatever password the list held before"
+	default:
+		for _, c := range calls {
+			dom := false
+			for _, b := range builds {
+				if core.Dominates(b, c.(ssa.Instruction)) {
+					dom = true
+				}
+			}
+			if !dom {
+				why = "a path reaches pack() without the current server's entry having been built from config.DSN.Password in this Login (the entry is kept when one is already there): after the password was set or changed later, REMPWD for the current server carries the old password while LOGPWD carries the new one"
+			}
+		}
+	}
+	r.Check(why == "", "R09.8", "Login: the current server's entry is built from DSN.Password at login time", login.Pos(), "LoginConfigRemoteServer{Password: config.DSN.Password} dominates pack()", why)
+}
+
+// c16NoHiddenState: R16.6 (second clause). The methods of Decimal that only read or format (everything but Set*,
+// Negate) store nothing into the receiver. Precision and Scale are exported and may be changed by anyone, so text or
+// any other derived value cached inside the decimal cannot be kept in step with it; Negate after String would print
+// the old sign.
+func c16NoHiddenState(r *core.Run) {
+	p := r.Prog
+	dec := p.Named("asetypes", "Decimal")
+	n := 0
+	for _, fn := range p.ModuleFuncs() {
+		if fn.Blocks == nil || core.RecvNamed(fn) == nil || core.RecvNamed(fn).Obj() != dec.Obj() || fn.Parent() != nil {
+			continue
+		}
+		if strings.HasPrefix(fn.Name(), "Set") || fn.Name() == "Negate" || fn.Name() == "sanity" {
+			continue
+		}
+		if _, isPtr := fn.Params[0].Type().(*types.Pointer); !isPtr {
+			continue
+		}
+		n++
+		why := ""
+		var pos = fn.Pos()
+		for _, b := range fn.Blocks {
+			for _, in := range b.Instrs {
+				st, ok := in.(*ssa.Store)
+				if !ok {
+					continue
+				}
+				if fa, ok := st.Addr.(*ssa.FieldAddr); ok && core.Strip(fa.X) == ssa.Value(fn.Params[0]) {
+					why = core.FuncName(fn) + " stores into Decimal." + core.FieldOfAddr(fa).Name() + ": a value derived from the number is kept inside it, and nothing keeps it in step with Negate or with a change of the exported Precision/Scale — the next call answers for a number the decimal no longer holds"
+					pos = st.Pos()
+				}
+			}
+		}
+		r.Check(why == "", "R16.6", core.FuncName(fn)+": stores nothing into the receiver", pos, "no store through the receiver", why)
+	}
+	if n == 0 {
+		r.Unknown("R16.6", "reading methods of *Decimal", token.NoPos, "none found")
+	}
+}
